@@ -30,12 +30,12 @@ MODEL_MAP = [
     {'python': 'pyipmi/session.py:Session.increment_sequence_number', 'coq': 'Model.Threads.next_sseq'},
     {'python': 'pyipmi/interfaces/rmcp.py:Rmcp._receive_ipmi_msg + ipmb.rx_filter (default options, abstract frame)',
      'coq': 'Model.Threads.rx_match (step PRecv)'},
-    {'python': 'pyipmi/interfaces/rmcp.py:call_repeatedly / Rmcp._get_device_id (keep-alive = one more thread)',
+    {'python': 'pyipmi/interfaces/rmcp.py:call_repeatedly + the job establish_session gives it (keep-alive = one more thread)',
      'coq': 'a thread of Model.Threads whose requests are (6, 1)'},
 ]
 TRUSTED = [
     'C14: the deterministic scheduler (harness/c14_sched.py): a data descriptor for next_sequence_number on a '
-    'harness-side subclass of Rmcp, a cooperative lock object assigned to transaction_lock, a scripted socket with '
+    'harness-side subclass of Rmcp, cooperative lock objects for every lock the code creates, a scripted socket with '
     'an in-order reference BMC, sys.settrace line events; exactly one Python thread runs at a time',
     'C14: CPython byte-code atomicity and the GIL are below the model; threading.Lock itself is replaced, not verified',
 ]
@@ -381,6 +381,13 @@ def run(ctx):
                             'expected': 'complete non-interleaved send/receive pairs; strictly increasing session '
                                         'sequence numbers; every request returns the payload of the reply to its '
                                         'own datagram'})
+        ka = obs.get('keepalive', {})
+        if not ka_bad and any(t['kind'] == 'keepalive' for t in cfg['threads']) and not (
+                ka.get('captured') and ka.get('threads_created') == 1 and ka.get('args') == [[]]
+                and ka.get('intervals') in ([], [ka.get('expected_interval')])):
+            ka_bad.append({'case': 'establish_session did not hand exactly one argument-less keep-alive job with '
+                                   'interval = keep_alive_interval to call_repeatedly', 'observed': ka})
+        res.extra.setdefault('keepalive', dict(ka, job=obs.get('keepalive_job')))
         if obs.get('unlocked_session_accesses') and not unlocked_mismatch:
             unlocked_mismatch.append({'case': 'Session.sequence_number accessed by a thread holding no lock (%d accesses); '
                                               'the model packs under the lock' % obs['unlocked_session_accesses'],
@@ -392,14 +399,11 @@ def run(ctx):
             meta.append({'config': name, 'fine': fine, 'choices': obs['taken'] if len(obs['taken']) < 80 else
                          obs['model_sched'], 'cfg': cfg})
 
-    # the keep-alive really is "one more thread calling _get_device_id on the same interface"
-    try:
-        tie_ok, tie = S.keepalive_tie()
-    except Exception as e:  # noqa
-        tie_ok, tie = False, {'exception': repr(e)}
-    res.extra['keepalive_tie'] = dict(tie, ok=tie_ok)
-    tie_mismatch = [] if tie_ok else [{'case': 'establish_session -> call_repeatedly(keep_alive_interval, '
-                                               'self._get_device_id) not observed', 'observed': tie}]
+    # the keep-alive job is whatever establish_session hands to call_repeatedly in each run (captured by
+    # substituting the module global `threading`); it is judged by what it DOES - every schedule compares
+    # its exchanges (one Get Device ID through the same interface under the same lock) with the model -
+    # plus, here: exactly one timer thread, no arguments, interval = keep_alive_interval
+    ka_bad = []
     bound = 2 if q else 3
     per_cfg = {}
     for name, cfg in configs(q):
@@ -425,7 +429,7 @@ def run(ctx):
         obs = S.run_schedule(cfg, ch, fine=True)
         consider(name + '/line', cfg, obs, True, 'random, source-line granularity')
     failing, errors = C.coq_cases('C14', 'Corr.C14 Model.Threads', terms)
-    res.mismatches = tie_mismatch + unlocked_mismatch + [{'case': meta[i], 'term': terms[i][:1500]} for i in failing[:20]]
+    res.mismatches = ka_bad + unlocked_mismatch + [{'case': meta[i], 'term': terms[i][:1500]} for i in failing[:20]]
     res.corr_errors = errors
     res.evaluations = nruns
     res.distinct_nontrivial = D.distinct
